@@ -3,7 +3,7 @@ import Amgcl.Model.DistConsolidate
 import Amgcl.Model.Amg
 import Amgcl.Model.RelaxJacobi
 /-!
-# The distributed multigrid cycle (C12) — mirrors amgcl/mpi/amg.hpp:223-240, 418-455,
+# The distributed multigrid hierarchy and cycle (C12) — mirrors amgcl/mpi/amg.hpp:223-240, 257-315, 377-455,
 mpi/relaxation/{damped_jacobi,spai0}.hpp and `operator()` of mpi/direct_solver/solver_base.hpp:205-243
 
 As in `Model/Dist.lean`, a run on `np` ranks is ONE pure function on the lists of per-rank states (index = rank):
@@ -21,7 +21,8 @@ As in `Model/Dist.lean`, a run on `np` ranks is ONE pure function on the lists o
 * the coarse direct solver is `solver_base`: every active rank sends its slice of the right-hand side to the master
   of its group, the master solves the consolidated system with the serial `direct` and scatters the solution.
 
-`dcycle` / `dapply` are `amg::cycle` / `amg::apply` statement by statement — the same text as the serial
+`dinit` is the hierarchy constructor `mpi::amg::init` (level constructor, `step_down` without repartitioning) for a
+coarsening given as a `DPolicy`; `dcycle` / `dapply` are `amg::cycle` / `amg::apply` statement by statement — the same text as the serial
 `Amg.cycle` / `Amg.apply` (the C++ sources are literally the same loops) over these distributed primitives.
 -/
 namespace Amgcl
@@ -213,6 +214,74 @@ def freshDScratch (levels : List (DLevel K S)) : List (DScratch K) :=
   levels.map (fun lv => { f := dclear lv.part, u := dclear lv.part, t := dclear lv.part })
 
 end cycle
+
+/-! ## the hierarchy constructor -/
+section init
+variable {K S : Type} [Add K] [Mul K]
+
+/-- the coarsening as `mpi::amg::init` sees it: `transfer l A part` is the result of the `l`-th call of
+`C.transfer_operators(A)` on the (stateful) coarsening object — `(P, R, loc_cols of P on every rank)`, the last being
+the partition of the next level — and `coarseOp A P R part nextPart` is `C.coarse_operator(A, P, R)` -/
+structure DPolicy (K : Type) where
+  transfer : Nat → List (DistMat K) → List Nat → List (DistMat K) × List (DistMat K) × List Nat
+  coarseOp : List (DistMat K) → List (DistMat K) → List (DistMat K) → List Nat → List Nat → List (DistMat K)
+
+/-- `coarsening::detail::galerkin(A, P, R) = product(R, *product(A, P))` with `mpi::product` -/
+def dgalerkin (A P R : List (DistMat K)) (part nextPart : List Nat) : List (DistMat K) :=
+  distProduct R (distProduct A P part nextPart) part nextPart
+
+/-- `level(a, prm, bprm, direct)` (mpi/amg.hpp:257-284): `sort_rows(*a)` (in place: the caller's matrix is sorted too),
+then either the direct solver or `A = a` and the relaxation; returns the level and the sorted matrix.
+`directOk`: the constructor of the serial solver on a master's consolidated matrix succeeds. -/
+def dmkLevel (dsm : DSmoother K S) (directOk : CRS K → Bool) (direct : Bool) (A : List (DistMat K)) (part : List Nat) :
+    Except Amg.BuildErr (DLevel K S × List (DistMat K)) :=
+  let A := distSortRows A
+  if direct then
+    let st := directInit 1 A part
+    if st.all (fun s => match s.cons with | some Ac => directOk Ac | none => true)
+    then .ok ({ part := part, solve := some st }, A) else .error .precondition
+  else
+    match dsm.setup A part with
+    | .ok s => .ok ({ part := part, A := some A, relax := some s }, A)
+    | .precondition => .error .precondition
+    | .undefinedInput => .error .undefinedInput
+
+/-- the `while` loop of `mpi::amg::init` (lines 386-405) without repartitioning (`repart.is_needed` false);
+`step_down`: `P`, `R` from the coarsening, sorted; `P->glob_cols() == 0` ends the hierarchy without a coarse level;
+returns the levels and the remaining matrix with its partition (`none`: zero-sized coarse level) -/
+def dinitLoop (prm : Amg.Params) (pol : DPolicy K) (dsm : DSmoother K S) (directOk : CRS K → Bool) :
+    Nat → List (DLevel K S) → List (DistMat K) → List Nat →
+    Except Amg.BuildErr (List (DLevel K S) × Option (List (DistMat K) × List Nat))
+  | 0, _, _, _ => .error .fuel
+  | fuel + 1, levels, A, part =>
+    if part.sum > prm.coarse_enough then
+      match dmkLevel dsm directOk false A part with
+      | .error e => .error e
+      | .ok (lv, As) =>
+        if levels.length + 1 ≥ prm.max_levels then .ok (levels ++ [lv], some (As, part))
+        else
+          let (P, R, np) := pol.transfer levels.length As part
+          let P := distSortRows P
+          let R := distSortRows R
+          let lv := { lv with P := some P, R := some R }
+          if np.sum = 0 then .ok (levels ++ [lv], none)
+          else dinitLoop prm pol dsm directOk fuel (levels ++ [lv]) (pol.coarseOp As P R part np) np
+    else .ok (levels, some (A, part))
+
+/-- `mpi::amg::init` (lines 377-416) on a distributed matrix with rows and columns partitioned by `part` -/
+def dinit (prm : Amg.Params) (pol : DPolicy K) (dsm : DSmoother K S) (directOk : CRS K → Bool)
+    (A : List (DistMat K)) (part : List Nat) : Except Amg.BuildErr (List (DLevel K S)) :=
+  match dinitLoop prm pol dsm directOk (part.sum + 2) [] A part with
+  | .error e => .error e
+  | .ok (levels, none) => .ok levels
+  | .ok (levels, some (Ac, pc)) =>
+    if pc.sum > prm.coarse_enough then .ok levels
+    else
+      match dmkLevel dsm directOk prm.direct_coarse Ac pc with
+      | .error e => .error e
+      | .ok (lv, _) => .ok (levels ++ [lv])
+
+end init
 
 end DistAmg
 end Amgcl
